@@ -14,7 +14,7 @@ KINDS = ["accum", "map", "count", "sum", "min", "max", "last", "first"]
 
 def gen(rng, tier, quarantine=()):
     fns = rng.sample(FNS, rng.choice([1, 2]))
-    nprobes = rng.choice([1, 1, 2])
+    nprobes = rng.choice([1, 2, 2, 3])
     ops = []
     caps = {}
     for i in range(nprobes):
@@ -43,6 +43,14 @@ def gen(rng, tier, quarantine=()):
                 "tape": tree_tape(rng, rng.randint(2, 20), set(fns), pc, rng.choice([0.0, 0.4])),
                 "faults": gen_faults(rng, 30, rng.choice([0, 0, 1]))}
 
+    if nprobes >= 3 and rng.random() < 0.4:
+        # template: two probes end in activation order, a stage is attached to the first one
+        # afterwards, and a third probe keeps the function instrumented while it is called again
+        ops += [{"op": "enter", "id": "p0"}, {"op": "enter", "id": "p1"}, call(),
+                {"op": "exit", "id": "p0"}, {"op": "exit", "id": "p1"},
+                {"op": "stage", "id": "p0", "kind": rng.choice(["accum", "map", "sum", "last"]), "cap": caps["p0"]},
+                {"op": "enter", "id": "p2"}, call(), call(), {"op": "exit", "id": "p2"}, call()]
+        return {"prog": "calltree", "ops": ops}
     if rng.random() < 0.5:
         ops.append(call())  # before activation: must not reach the pipeline
     live = []
@@ -55,10 +63,12 @@ def gen(rng, tier, quarantine=()):
             pid = pending.pop(0)
             ops.append({"op": "enter", "id": pid})
             live.append(pid)
-        elif r < 0.4 and live:
-            ops.append(stage(rng.choice(live), late=True))
+        elif r < 0.4 and (live or done):
+            # part-way through -- or even after the probe is over (then it must never hear anything)
+            ops.append(stage(rng.choice(live + done), late=True))
         elif r < 0.55 and live:
-            pid = live.pop()
+            # global probes end in any order
+            pid = live.pop(rng.randrange(len(live)) if rng.random() < 0.4 else -1)
             ops.append({"op": "exit", "id": pid, "exc": rng.random() < 0.3})
             done.append(pid)
         elif r < 0.65 and (live or done):
